@@ -140,6 +140,12 @@ def rules_for_body(v, bs, sk_named):
             if l in allowed or l in fl or l in itl:
                 continue
             out.append(finding("C15.DISJ", v, "local %s carries state from one member to the next (the outcome may depend on the order of members)" % (v.b.lname(l) or "_%d" % l), header))
+        # the accumulator is only handed to report sites inside the loop, never looked at
+        for bb in sorted(body):
+            for st in v.blocks[bb]["stmts"]:
+                if st["k"] == "assign" and st["rv"]["k"] in ("ref", "rawptr", "discr") and st["rv"]["place"]["l"] in allowed:
+                    ob += 1
+                    out.append(finding("C15.DISJ", v, "whether an error was already recorded is looked at while the members are still being visited (the outcome depends on which member comes first)", bb))
         # field states are written, never read, inside the loop
         for bb, l, how in locals_read_in(v, body):
             if l in fl:
